@@ -4,6 +4,9 @@
 package models
 
 import (
+	"reflect"
+	"unsafe"
+
 	"github.com/prometheus/client_golang/prometheus"
 	dto "github.com/prometheus/client_model/go"
 )
@@ -59,8 +62,23 @@ func (g *SequentialIDGenerator) VerifCounter() uint32 {
 }
 
 // VerifCounters returns the participant and entity id counters of the session and the type id counter of its store.
+// The generators are looked up by field name at run time: when /repo no longer has a generator under that name the
+// harness still builds, the counter reads as 4294967295 and the state comparison reports it, while every other
+// check goes on looking for an input on which a property fails.
 func (s *Session) VerifCounters() (participants, entities, types uint32) {
-	return s.participantIDs.VerifCounter(), s.entityIDs.VerifCounter(), s.entityComponents.ids.VerifCounter()
+	return verifGenerator(s, "participantIDs"), verifGenerator(s, "entityIDs"), verifGenerator(s.entityComponents, "ids")
+}
+
+func verifGenerator(owner any, field string) uint32 {
+	o := reflect.ValueOf(owner)
+	if o.Kind() != reflect.Pointer || o.IsNil() || o.Elem().Kind() != reflect.Struct {
+		return ^uint32(0)
+	}
+	v := o.Elem().FieldByName(field)
+	if !v.IsValid() || !v.CanAddr() || v.Type() != reflect.TypeOf((*SequentialIDGenerator)(nil)).Elem() {
+		return ^uint32(0)
+	}
+	return (*SequentialIDGenerator)(unsafe.Pointer(v.UnsafeAddr())).VerifCounter()
 }
 
 // VerifTypes returns the registered component types (id -> name).
